@@ -57,7 +57,7 @@ func errorExit(b *ssa.BasicBlock) bool {
 	return false
 }
 
-func valueRejectionSites(p *Program) map[string][]string {
+func valueRejectionSites(p *Program, only []string) map[string][]string {
 	out := map[string][]string{}
 	var fns []*ssa.Function
 	// code reached by the commands of the oracle table: a command added after the table was
@@ -68,7 +68,7 @@ func valueRejectionSites(p *Program) map[string][]string {
 		execs, _ := p.executors()
 		var roots []*ssa.Function
 		for _, e := range execs {
-			if _, inTable := table[e.Name]; inTable {
+			if _, inTable := table[e.Name]; inTable && (only == nil || nameIn(e.Name, only...)) {
 				roots = append(roots, e.Fn)
 			}
 		}
@@ -146,7 +146,7 @@ func valueRejectionSites(p *Program) map[string][]string {
 	return out
 }
 
-func ruleValueRejections(c *Ctx, rid string) {
+func ruleValueRejections(c *Ctx, rid string, only ...string) {
 	c.rule(rid, "inventory of value-conditioned rejections: every comparison of an integer (a decoded argument, a count, the length of a payload) with a constant, in the executors, the argument readers and the numeric accessors, one side of which returns an error, has a shape (kind of value, direction, constant — wherever the check is written) listed in /verif/tables/value_rejections.json (each confirmed by reading to refuse only values Redis refuses too); a comparison not in the table refuses values a client may legitimately send")
 	table := map[string]string{}
 	if b, err := os.ReadFile(filepath.Join(verifRoot, "tables", "value_rejections.json")); err == nil {
@@ -156,7 +156,7 @@ func ruleValueRejections(c *Ctx, rid string) {
 		c.undecided(rid, "table", "", "cannot read tables/value_rejections.json")
 		return
 	}
-	sites := valueRejectionSites(c.P)
+	sites := valueRejectionSites(c.P, only)
 	n := 0
 	for _, k := range sortedKeys(sites) {
 		sort.Strings(sites[k])
@@ -179,11 +179,15 @@ func ruleValueRejections(c *Ctx, rid string) {
 		c.note("value rejection of the inventory not found any more (not an obligation): %s", k)
 	}
 	c.count("value-rejection-sites", n)
-	c.floor("value-rejection-sites", 3)
+	if only == nil {
+		c.floor("value-rejection-sites", 3)
+	} else if n == 0 {
+		c.ok(rid, "value-rejection/none", "", fmt.Sprintf("no value-conditioned rejection in the code reached by %s (and the numeric accessors)", strings.Join(only, ", ")))
+	}
 }
 
 func dumpValueRejections(p *Program) {
-	sites := valueRejectionSites(p)
+	sites := valueRejectionSites(p, nil)
 	for _, k := range sortedKeys(sites) {
 		fmt.Printf("%s\t%s\n", k, strings.Join(sites[k], "; "))
 	}
